@@ -222,9 +222,18 @@ Proof.
     + exists c. repeat split; auto. eapply grouped_complete; eauto.
 Qed.
 
-(** ** 9. LabelProbabilityInjector: the probability vector, exactly (rationals) *)
+(** ** 9. LabelProbabilityInjector: the probability vector, exactly (rationals).
+    [pcs] = (requested probability, number of window rows) of every class.  The code clamps every
+    entry with [max(., 0.0)] against rounding; exactly, the clamp is the identity whenever the
+    requests are non-negative and the classes present in the window request at most 1. *)
+Theorem C20_probability_vector_nonnegative :
+  forall pcs : list (Q * Z), Forall (fun x => (0 <= x)%Q) (p_final NumQ pcs).
+Proof. exact p_final_nonneg. Qed.
+
 Theorem C20_probability_vector_sums_to_one :
-  forall pcs : list (Q * Z), p_blocks NumQ pcs <> [] -> (qsum (p_final NumQ pcs) == 1)%Q.
+  forall pcs : list (Q * Z),
+  requests_nonneg pcs -> (present_mass pcs <= 1)%Q -> p_blocks NumQ pcs <> [] ->
+  (qsum (p_final NumQ pcs) == 1)%Q.
 Proof. exact p_final_sums_to_one. Qed.
 
 (** one block per class; a class with [cnt > 0] rows in the window and requested probability [P]
@@ -232,15 +241,17 @@ Proof. exact p_final_sums_to_one. Qed.
     requested for classes that do not occur in the window, spread evenly over the window rows *)
 Theorem C20_probability_class_mass :
   forall pcs : list (Q * Z),
+  requests_nonneg pcs -> (present_mass pcs <= 1)%Q ->
   let lo := p_leftover NumQ (p_blocks NumQ pcs) in
   p_final NumQ pcs =
     flat_map (fun pc => repeat (p_individual NumQ (fst pc) (snd pc) + lo)%Q (Z.to_nat (snd pc))) pcs /\
-  (lo == (1 - present_mass pcs) / inject_Z (total_count pcs))%Q /\
+  (lo == (1 - present_mass pcs) / inject_Z (total_count pcs))%Q /\ (0 <= lo)%Q /\
   forall P cnt, 0 < cnt ->
     (p_individual NumQ P cnt == P / inject_Z cnt)%Q /\
     (qsum (repeat (p_individual NumQ P cnt + lo)%Q (Z.to_nat cnt)) == P + inject_Z cnt * lo)%Q.
 Proof.
-  intro pcs. cbv zeta. split; [apply p_final_blocks|]. split; [apply p_leftover_value|].
+  intros pcs H1 H2. cbv zeta. split; [now apply p_final_blocks|]. split; [apply p_leftover_value|].
+  split; [now apply p_leftover_nonneg|].
   intros P cnt H. split; [now apply p_individual_value|now apply block_mass].
 Qed.
 
@@ -266,16 +277,18 @@ Proof.
   intros. split; [apply p_blocks_class_table|]. split; [reflexivity|apply length_p_blocks_class_table].
 Qed.
 
-(** completion of the dictionary: specified classes keep their value, the others share the rest *)
+(** completion of the dictionary ([tol] = the literal 1e-9): specified classes keep their value,
+    the others share [max(0, 1 - sum)], which is [1 - sum] whenever the specified sum is at most 1 *)
 Theorem C20_dictionary_completion :
-  forall (all : list Q) (cp cp' : dict NumQ),
-  fill_probabilities NumQ all cp = Some cp' ->
+  forall (tol : Q) (all : list Q) (cp cp' : dict NumQ),
+  fill_probabilities NumQ tol all cp = Some cp' ->
   let undef := undefined_classes NumQ all cp in
-  (qsum (map snd cp) <= 1)%Q /\
+  let missing := pymax (N := NumQ) 0%Q (1 - qsum (map snd cp))%Q in
+  (qsum (map snd cp) <= 1 + tol)%Q /\
   (forall k v, In (k, v) cp -> exists c, In c all /\ (k == c)%Q) /\
   (forall k v, lookup NumQ k cp = Some v -> lookup NumQ k cp' = Some v) /\
-  (forall k, In k undef ->
-     lookup NumQ k cp' = Some ((1 - qsum (map snd cp)) / inject_Z (len undef))%Q).
+  (forall k, In k undef -> lookup NumQ k cp' = Some (missing / inject_Z (len undef))%Q) /\
+  (0 <= missing)%Q /\ ((qsum (map snd cp) <= 1)%Q -> (missing == 1 - qsum (map snd cp))%Q).
 Proof. exact fill_probabilities_spec. Qed.
 
 (** ** 10. FeatureCoverInjector (given a legal answer of pandas' group sampling) *)
@@ -283,7 +296,7 @@ Theorem C20_cover :
   forall (A : Type) (eqb ltb : A -> A -> bool) (dflt : A) (col : nat) size idxs (d : list (list A)),
   cover_oracle_ok eqb ltb dflt (Z.of_nat col) size idxs d = true ->
   let classes := np_unique eqb ltb (column dflt (Z.of_nat col) d) in
-  let n := size / len classes in
+  let n := size / len classes in   (* = 0 when there is no group: Coq's x / 0 = 0, as the code's guard *)
   let out := feature_cover (Z.of_nat col) idxs d in
   0 <= n /\ len out = n * len classes /\
   (* every output row is an input row without the hidden column *)
@@ -300,7 +313,7 @@ Theorem C20_cover :
 Proof.
   intros A eqb ltb dflt col size idxs d H. cbv zeta.
   destruct (cover_oracle_ok_spec _ _ _ _ _ _ _ H) as [H0 [Hn [Hl Hg]]].
-  unfold cover_n in *. repeat split.
+  rewrite Hn in *. clear Hn. repeat split.
   - exact H0.
   - unfold len in *. rewrite length_feature_cover. exact Hl.
   - intros k i Hk. destruct (feature_cover_rows _ _ _ _ _ _ _ _ _ H Hk) as [r [Hi [Hr [Ho _]]]].
@@ -388,8 +401,11 @@ Proof. split; reflexivity. Qed.
 
 Example C20_ex_probability :
   let pcs : list (Q * Z) := [((1 # 2)%Q, 2); ((1 # 4)%Q, 0); ((1 # 4)%Q, 1)] in
-  p_blocks NumQ pcs <> [] /\ (0 < 2) /\ (present_mass pcs == 3 # 4)%Q.
-Proof. cbv zeta. split; [discriminate|]. split; [lia|reflexivity]. Qed.
+  p_blocks NumQ pcs <> [] /\ requests_nonneg pcs /\ (present_mass pcs <= 1)%Q /\ (present_mass pcs == 3 # 4)%Q.
+Proof.
+  cbv zeta. split; [discriminate|]. split; [repeat constructor; discriminate|].
+  split; [discriminate|reflexivity].
+Qed.
 
 Example C20_ex_swap_window :
   inw 1 3 1 = true /\ inw 1 3 3 = false /\
@@ -413,6 +429,7 @@ Print Assumptions C20_brownian_walk.
 Print Assumptions C20_resampled_rows_come_from_the_window.
 Print Assumptions C20_resampled_row_exact.
 Print Assumptions C20_sampling_pool.
+Print Assumptions C20_probability_vector_nonnegative.
 Print Assumptions C20_probability_vector_sums_to_one.
 Print Assumptions C20_probability_class_mass.
 Print Assumptions C20_probability_class_mass_exact.
